@@ -20,6 +20,8 @@ CLAIMED.update({
     'C05': dict(ref='4/C05', text='bounded symbolic model checking through the real text parser (values are placeholders): declared lines are found with identical value nodes, completion per system and step is the node max(0, use - declared production) on every feasible path of the per-step guards, nothing else is added, re-normalization is compared component by component; enumerated skeletons (ids incl. negative / omitted / repeated, partial / surplus / foreign production), N <= 2 quick'),
     'C06': dict(ref='4/C06', text='bounded symbolic model checking through the real text parser: per system with AUX lines and per step, every share is >= 0 and <= the declared energy (solver-proved lemma instances / cvc5), single-service systems keep their value nodes on that service, multi-service shares are node-identical to aux*|q_srv|/sum|q| (signed outputs symbolic over both signs), other systems are untouched, and the electricity balance exists and folds exactly the parsed uses and auxiliaries; that the shares add up to the declared energy follows from this structure by standard error analysis and is the replay predicate'),
     'C07': dict(ref='4/C07', text='bounded symbolic model checking through the real factor-file parser with every factor value symbolic: for enumerated skeletons (all subsets of user-given export factors in the thorough tier, forced factors given with other values, duplicates, unusable sets, the four locations, user RED1/RED2 given or not) forced factors are (1,0,0), user values keep their nodes and are what find returns, defaults are the on-site supply / grid supply nodes, RED1/RED2 follow user > file > default, re-preparation is the identity, unusable sets give MissingFactor, and a building over all carriers of the set evaluates without MissingFactor'),
+    'C09': dict(ref='4/C09', text='bounded symbolic model checking of a symbolic building against its time-transformed copy in one path context: reversal of N = 2 steps (annual leaves are the same DAG nodes because IEEE addition commutes; per-step leaves are permuted) and subdivision of one step into two halves (power-of-two scaling normal form makes every annual leaf the same node and every per-step leaf half the base node); N = 3 permutations and N = 2 / m = 4 subdivisions are thorough-tier, tolerant and mostly INCONCLUSIVE unless violated; cogeneration and load matching included'),
+    'C11': dict(ref='4/C11', text='bounded symbolic model checking of a symbolic building against its copy with every energy value multiplied by 2^j (j in [-6, 6], both copies inside the input domain) and against a copy with the area multiplied by 2^j: under the power-of-two scaling normal form every energy / weighted energy / emission leaf is the node 2^j * base leaf, every RER / matching factor / k_exp leaf and the DHW fraction are the same node, per-m2 leaves scale by 2^-j for the area; exactness of power-of-two scaling of intermediates is assumed (no underflow) and checked on every path witness by bit comparison with the untouched build; scale factors that are not powers of two are not covered'),
     'C10': dict(ref='4/C10', text='bounded symbolic model checking of base text versus rewritten text (line swaps and reversal, a line split into two symbolic parts whose sum node is the base value, injective non-monotone renumbering of ids, comments / blank lines / header / BOM / CRLF / padding, explicit vs omitted id 0, and another hash-iteration policy) through the real parser and energy_performance in one path context: every output leaf is the same DAG node (the tolerant statement is the replay predicate); rewritings that genuinely re-associate three-term sums are thorough-tier only and come back INCONCLUSIVE unless violated; "another process" is modelled by the iteration-order policies of DESIGN.md 3.4, not by std RandomState'),
     'C08': dict(ref='4/C08', text='bounded symbolic model checking of energy_performance(c, f) against energy_performance(c, f.strip(c)) in one path context: same outcome kind and every output leaf the same DAG node, for regulatory and fully symbolic user factor sets; panics of strip are reachability findings replayed on the untouched build'),
     'C12': dict(ref='4/C12', text='bounded symbolic model checking of the load-matching and non-load-matching evaluations of the same symbolic building: per-source allocations are node-identical to f*min(pv, use) and f*min(chp, use - min(pv, use)); f = 1 without load matching, f is the B.32 formula with 0.5 <= f <= 1 (solver-proved one-variable lemma) with it; self-use / grid delivery comparisons by solver-proved monotonicity lemma instances or cvc5 per path'),
